@@ -109,6 +109,8 @@ func c09Catalogue() []Shape {
 // makes that visible without waiting: the cancellation fires in the middle of
 // the instruction, and more than c09BWork further work units inside the same
 // instruction are "not stopped".
+const c09InstrCap = 5000000 // work units after which an instruction of a run WITHOUT planned cancellation is given up (runaway protection only)
+
 const c09BWork = 200000 // work units (loop iterations / function entries of the value and built-in code) allowed after the instant
 
 var c09HeavyBuild = []struct{ name, text string }{
@@ -349,6 +351,7 @@ func (p *c09) twin(text string, opt bool, names []string, need int64) *c09Twin {
 	ctx := verifsim.NewSimContext(-1)
 	ctx.HardCap = cap
 	ctx.PanicAfter = 64 // (the twin only needs to be stopped, by whatever means)
+	ctx.InstrWorkCap = c09InstrCap
 	h := newHost(ctx)
 	h.TotalBudget = int(cap)
 	e := evalfilter.New(text)
@@ -363,7 +366,7 @@ func (p *c09) twin(text string, opt bool, names []string, need int64) *c09Twin {
 	t.trace = h.Trace
 	t.vars = showVars(e, names)
 	t.ticks = ctx.Clock
-	if ctx.HitCap || h.Runaway {
+	if ctx.HitCap || h.Runaway || ctx.RunawayWork {
 		t.ticks = -1
 	}
 	if len(p.twins) > 20000 {
@@ -460,6 +463,14 @@ func (p *c09) Run(c *verifsim.Chooser, st *Stats, render bool) *Outcome {
 	ctx.NearDeadline = dlKind == 2
 	ctx.HardCap = need + c09B + 1000
 	ctx.PanicAfter = c09B
+	if plan != 0 {
+		// a planned cancellation also lands inside an instruction that turns
+		// out to be long (whichever comes first), and must stop it too
+		ctx.HeavyFireAt = 20000
+		ctx.WorkCapAfter = c09BWork
+	} else {
+		ctx.InstrWorkCap = c09InstrCap
+	}
 	h := newHost(ctx)
 	h.RunawayBudget = c09B
 	h.TotalBudget = int(need) + c09B + 1000
@@ -530,7 +541,11 @@ func (p *c09) Run(c *verifsim.Chooser, st *Stats, render bool) *Outcome {
 		// happened: this is a run without cancellation
 		plan = 0
 	}
-	if h.Runaway || ctx.HitCap || ctx.Runaway {
+	if ctx.RunawayWork && ctx.Fired() && plan != 0 {
+		o.violate("C09/not-stopped-inside-instruction", runawayWalk(ctx.RunawayStack), "(%s) the context was cancelled (plan=%d k=%d, inside the instruction: %v); %d work units later one instruction was still running (interrupted by the simulator)", family, plan, k, ctx.FiredInWork, ctx.WorkAfter)
+		return o
+	}
+	if h.Runaway || ctx.HitCap || ctx.Runaway || ctx.RunawayWork {
 		switch {
 		case plan != 0:
 			o.violate("C09/not-stopped", family, "cancellation planned (plan=%d k=%d call=%d); fired=%v; the script kept running: %d ticks and %d host calls after the instant", plan, k, hostCall, ctx.Fired(), ctx.TicksAfter, h.CallsAfterCancel)
@@ -705,6 +720,9 @@ func runawayWalk(stack []string) string {
 		}
 		if first == "" {
 			first = name
+		}
+		if name == "/vm.(*VM).Run" || name == "/vm.(*VM).run" {
+			continue // (the interpreter's own frames, one pair per call depth of the script)
 		}
 		count[name]++
 	}
